@@ -39,6 +39,9 @@ func OrderOps(g *Gen, ac *chain.Actor, name string, ctx sdk.Context) sdk.Msg {
 		lev := 1.5 + r.Float64()*8
 		if g.hostile() {
 			lev = []float64{9.9, 10, 24}[r.Intn(3)]
+			if r.Intn(3) == 0 {
+				trig = math.LegacyZeroDec() // accepted by validation; a long's trigger "market <= 0" never holds
+			}
 		}
 		col := "uusdc"
 		if pos == tstypes.PerpetualPosition_LONG && r.Intn(4) == 0 {
